@@ -46,7 +46,7 @@ def worst_dist(d, xs, y0, Y, integrand='obj'):
             if d['const_piece'] is not None:
                 vals.append(d['const_piece'])
             return d['cy'] * yv + np.array(d['c0']) @ xs + max(vals)
-        return np.array(d['econ']['q']) @ v + np.array(d['econ']['c']) @ xs
+        return D.econ_value(d, xs, v)
     fvals = np.array([f(s, v) for s, v in idx])
     cvec = np.concatenate([-fvals, np.zeros(S)])
     Aeq = []; beq = []
@@ -110,6 +110,11 @@ def true_value(d, maxit=80, tol=1e-7):
     for s in range(S):
         for v in D.vertices(d, s):
             base_rows.append(yrow(s, v, nbase)); base_rhs.append(50.0)
+    # the piecewise robust constraint with its own (wider) supports: y_s(v) <= cap + a1 at every wide vertex
+    if d.get('pwcon'):
+        for s in range(S):
+            for v in D.wide_vertices(d, s):
+                base_rows.append(yrow(s, v, nbase)); base_rhs.append(d['pwcon']['cap'] + d['pwcon']['a1'])
     pcs = [(np.array(pc['R']), np.array(pc['r0']), np.array(pc['a']), pc['a0']) for pc in d['pieces']]
 
     def solve_master():
@@ -131,12 +136,23 @@ def true_value(d, maxit=80, tol=1e-7):
                         q = np.zeros(n); q[off + k] = -1; A.append(q); b.append(-d['const_piece'])
                 A.append(r_); b.append(0.0)
                 off += len(dist)
-            else:
+            elif 'q2' not in d['econ']:
                 r_ = np.zeros(n)
                 c0 = 0.0
                 for (s, v, w) in dist:
                     r_[ix_x:ix_x + nd] += w * np.array(d['econ']['c']); c0 += w * (np.array(d['econ']['q']) @ v)
                 A.append(r_); b.append(d['econ']['rhs'] - c0)
+            else:
+                # sum_k w_k u_k <= rhs,  u_k >= each piece at z_k
+                ec = d['econ']
+                r_ = np.zeros(n)
+                for k, (s, v, w) in enumerate(dist):
+                    r_[off + k] += w
+                    for (qq, cc, kk) in ((ec['q'], ec['c'], 0.0), (ec['q2'], ec['c2'], ec['k2'])):
+                        q = np.zeros(n); q[ix_x:ix_x + nd] = np.array(cc); q[off + k] = -1
+                        A.append(q); b.append(-(np.array(qq) @ v + kk))
+                A.append(r_); b.append(ec['rhs'])
+                off += len(dist)
         c = np.zeros(n); c[ix_t] = 1.0
         bnds = [(-1e5, 1e5)] + bounds_base[1:] + [(None, None)] * (n - nbase)
         res = opt.linprog(c, A_ub=np.array(A), b_ub=np.array(b), bounds=bnds, method='highs')
@@ -157,6 +173,8 @@ def true_value(d, maxit=80, tol=1e-7):
                 we, de = worst_dist(d, xs, y0, Y, integrand='econ')
                 if we is not None and we > d['econ']['rhs'] + tol * (1 + abs(we)):
                     cuts.append(('econ', de)); added = True
+                    if 'q2' in d['econ']:
+                        extra += len(de)
             if not added:
                 return 'ok', float(tval)
         res = solve_master()
